@@ -87,7 +87,13 @@ claim("C09", "exploration",
       "Exploration only: a pool of 80 hostile strings plus seeded random UTF-8 per slot, not all strings. Equality is semantic (nil = empty, pointers by pointee).",
       "TLA+-generated slot x string-class x encoding enumeration, round-tripped through WriteSpec/ReadSpec/cache", "5 C09, 8", "roundtrip")
 
+claim("C08", "exploration",
+      "Exploration: the structured corpora generated from the TLA+ models of every other family plus byte-level perturbations of every generated document are executed against all entry points taking untrusted input, under recover() and a watchdog, including a live auto-refresh cache whose watcher goroutine must keep refreshing. Every other check also reports a panic or hang met during its own replay.",
+      "A universal claim over byte strings is a fuzzing claim; this is a structured corpus, not a proof. Crashes needing a byte pattern that no model slot or listed perturbation describes are missed.",
+      "model-derived corpus + named lexical perturbations executed under a crash/hang monitor", "5 C08, 8", "nocrash")
+
 ENGINES = [
+ {"name": "nocrash", "path": "harness/nocrash.go", "serves_properties": ["C08"], "kind_free_text": "corpus replay under recover()/watchdog, live watcher"},
  {"name": "roundtrip", "path": "spec/RoundTrip.tla harness/roundtrip.go", "serves_properties": ["C09"], "kind_free_text": "generator + round-trip harness"},
  {"name": "cli", "path": "harness/cli.go spec/CacheSeq.tla", "serves_properties": ["C19"], "kind_free_text": "built binaries run on model-enumerated populations; stdout/exit status vs library vs model"},
  {"name": "schema", "path": "tools/schema2tla.py spec/Schema.tla harness/schemaoracle.go", "serves_properties": ["C17", "C18"],
